@@ -19,8 +19,12 @@ TAGS = ["mosAbstract", "objSlug", "objDur", "objTB", "ncsItem", "studioCommand",
         "custom-tag", "ns_tag", "Element.With.Dots",
         # look-alikes of structural elements, nested where they mean nothing (depth >= 3)
         "item", "story", "storyID", "itemID", "p", "roID", "mosExternalMetadata", "mosPayload", "StoryDuration",
-        "storyBody", "storyItem", "roCreate", "roDelete", "mosromgrmeta"]
-ATTRS = ["type", "techDescription", "lang", "data-x", "id"]
+        "storyBody", "storyItem", "roCreate", "roDelete", "mosromgrmeta", "roStorySend", "roElementAction",
+        # names outside ASCII
+        "r\u00e9sum\u00e9", "\u03c7\u03c1\u03cc\u03bd\u03bf\u03c2"]
+ATTRS = ["type", "techDescription", "lang", "data-x", "id", "unit\u00e9"]
+# ids that nested look-alike <storyID>/<itemID> elements spell: the very ids stories, items and messages use
+LIKELY_IDS = ["S1", "S2", "S3", "N1", "N2", "SU", "I1", "I2", "I3", "J1", "J2", "IU", "I9"]
 
 
 # ------------------------------------------------------------------------------------------
@@ -74,8 +78,9 @@ def restyle(obj, f):
 
 
 class Gamma:
-    def __init__(self, seed, style=None):
+    def __init__(self, seed, style=None, idf=None):
         self.seed = seed
+        self.idf = idf or (lambda x: x)       # the id style of this case (nested look-alike ids are spelled in it too)
         r = random.Random("%s|style" % seed)
         self.pretty = r.random() < 0.5 if style is None else style == "pretty"
         self.decl = r.random() < 0.3
@@ -99,8 +104,10 @@ class Gamma:
             for a in r.sample(ATTRS, r.randint(0, 2)):
                 attrs += " %s=%s" % (a, quoteattr(self.text(r)))
             kind = r.random()
-            if kind < 0.2:
+            if kind < 0.2 and tag not in ("storyID", "itemID"):
                 el = "<%s%s/>" % (tag, attrs)
+            elif tag in ("storyID", "itemID"):
+                el = "<%s%s>%s</%s>" % (tag, attrs, escape(self.idf(r.choice(LIKELY_IDS))), tag)
             else:
                 inner = ""
                 if r.random() < 0.7:
@@ -125,7 +132,8 @@ class Gamma:
             return "<%s/>" % tag if r.random() < 0.5 else "<%s></%s>" % (tag, tag)
         if tag == "roEdStart":
             k = int(tok.split(":")[1]) if tok.startswith("ed:") else 0
-            return "<roEdStart>2020-01-01T%02d:30:00</roEdStart>" % (10 + k)
+            pad = ("\n      ", "\n    ") if r.random() < 0.3 else ("", "")       # a value on a line of its own
+            return "<roEdStart>%s2020-01-01T%02d:30:00%s</roEdStart>" % (pad[0], 10 + k, pad[1])
         if tag in ("item", "storyItem"):
             idpart = "<itemID/>" if nid == NONE else "<itemID>%s</itemID>" % escape(nid)
             body = [idpart, "<itemSlug>%s</itemSlug>" % escape(self.text(r)), self.marker(tok)]
@@ -259,6 +267,8 @@ class Gamma:
             base = self.wrap("roMetadataReplace", [self.leaf(c) for c in m["carried"]])
         elif cls == "RunningOrderReplace":
             base = self.wrap("roReplace", kids())
+            if self.attrs(m.get("stok")):
+                base = base.replace("<roReplace", "<roReplace" + self.attrs(m.get("stok")), 1)
         elif cls == "RunningOrderEnd":
             base = self.leaf(m["carried"][0]) if m["carried"] else "<roDelete>%s</roDelete>" % roid
         elif cls == "ReadyToAir":
